@@ -220,9 +220,9 @@ pub fn cfg_strategy(p: &Profile) -> BoxedStrategy<SimCfg> {
     let client_alias = if p.aliases { prop_oneof![1 => Just(None), 1 => Just(Some(0u16)), 2 => Just(Some(2u16)), 1 => Just(Some(8u16))].boxed() } else { prop_oneof![3 => Just(None), 1 => Just(Some(2u16))].boxed() };
     (
         (prop::bool::weighted(0.6), 0u8..4, one, retries, 0u8..3, keep_alive, ping_timeout),
-        (client_id, client_alias, prop_oneof![13 => Just(0u16), 3 => 65533u16..=65535, 2 => 65520u16..=65535], option::weighted(0.15, prop_oneof![Just(50u32), Just(200u32), Just(268_435_455u32)]), option::weighted(0.3, prop_oneof![Just(0u32), Just(3600u32)]), resolver, buf, connack_template_strategy(p), option::weighted(0.4, connack_template_strategy(p))),
+        (client_id, client_alias, prop_oneof![13 => Just(0u16), 3 => 65533u16..=65535, 2 => 65520u16..=65535], option::weighted(0.15, prop_oneof![Just(50u32), Just(200u32), Just(268_435_455u32)]), option::weighted(0.3, prop_oneof![Just(0u32), Just(3600u32)]), resolver, buf, connack_template_strategy(p), option::weighted(0.4, connack_template_strategy(p)), prop_oneof![5 => Just(0u8), 2 => Just(2u8), 1 => Just(3u8)]),
     )
-        .prop_map(move |((v5, offline, one_at_a_time, retries, rejoin, keep_alive, ping_timeout_ms), (client_id, client_alias_max, first_pid, client_max_packet, session_expiry, resolver, buf_cap, connack, connack_alt))| {
+        .prop_map(move |((v5, offline, one_at_a_time, retries, rejoin, keep_alive, ping_timeout_ms), (client_id, client_alias_max, first_pid, client_max_packet, session_expiry, resolver, buf_cap, connack, connack_alt, session_loss_every))| {
             let mut cfg = SimCfg {
                 v5,
                 offline,
@@ -243,6 +243,7 @@ pub fn cfg_strategy(p: &Profile) -> BoxedStrategy<SimCfg> {
                 drain,
                 first_pid,
                 connack_alt,
+                session_loss_every,
             };
             if !cfg.v5 {
                 // MQTT 3.1.1 has no CONNACK properties
